@@ -1,5 +1,6 @@
 """C05 - written files are well-formed: in bounds, disjoint, consistent, decodable by an independent decoder."""
 import collections
+import glob
 import json
 import os
 import time
@@ -9,7 +10,8 @@ from props.c01 import random_big, many_chunks
 
 LEVEL = "exploration"
 ASSUME = ["harness/indep is an independent decoder written from the HDF5 File Format Specification 3.0; before it judges library files it is run over "
-          "the reference corpus (456 files, about 55 000 rule evaluations: no rule of a supported structure fails on a well-formed reference file)",
+          "the reference corpus on every run (515 files of the HDF5 C library, about 66 000 rule evaluations, see decoder_qualification: no rule of a supported structure "
+          "fails and no two extents overlap on a well-formed reference file, else the check refuses to judge)",
           "structures the decoder does not implement (layout message versions other than 3, filtered chunks, nested indirect heap blocks, shared messages) "
           "are reported as unsupported and not judged; the library's writer produces none of them except filtered chunks, whose extents are still recorded",
           "where the library deviates from the format in a way that would stop the walk (attribute info under message type 0x0F, attribute name index of "
@@ -19,13 +21,48 @@ ASSUME = ["harness/indep is an independent decoder written from the HDF5 File Fo
 
 
 def corpus_selfcheck(ctx):
-    """The decoder must hold its own rules on reference files before it may judge the library."""
-    return None
+    """The decoder must hold its own rules on reference files before it may judge the library: files written by the
+    HDF5 C library (the official test files and the C-library corpus shipped with the repository, minus those that are
+    corrupt on purpose) are walked; a failing rule or two overlapping extents there are a defect of the decoder."""
+    files = []
+    for pat in ("testdata/hdf5_official/*.h5", "testdata/c-library-corpus/**/*.h5", "testdata/reference/*.h5"):
+        files += glob.glob(os.path.join(ctx.repo, pat), recursive=True)
+    files = sorted(f for f in set(files) if os.path.getsize(f) > 0)
+    path = ctx.write_cases([{"file": f} for f in files], "corpus_files.ndjson")
+    trace, out = ctx.drive("c05corpus", path, trace_name="corpus_trace.ndjson")
+    evs = [json.loads(x) for x in open(trace)]
+    evs = [e for e in evs if e.get("op") == "corpus"]
+    bad = [e for e in evs if (e["broken"] or e["overlaps"] or e["res"] != "ok") and os.path.basename(e["file"]) not in CORRUPT_ON_PURPOSE]
+    if os.environ.get("H5V_HIST"):
+        for e in evs:
+            if e["broken"] or e["overlaps"] or e["res"] != "ok":
+                H.log("CORPUS %s res=%s broken=%s overlaps=%s errs=%s" % (os.path.relpath(e["file"], ctx.repo), e["res"], e["broken"][:4], e["overlaps"][:2], e["errs"][:3]))
+    if bad:
+        raise H.Infra("the independent decoder fails its own rules on %d well-formed reference files, e.g. %s: %s %s" % (
+            len(bad), os.path.relpath(bad[0]["file"], ctx.repo), bad[0]["broken"][:3], bad[0]["overlaps"][:1]))
+    return {"files": len(evs), "rules_evaluated": sum(e["rules"] for e in evs), "objects": sum(e["objects"] for e in evs),
+            "extents": sum(e["extents"] for e in evs), "files_with_objects": sum(1 for e in evs if e["objects"] > 0),
+            "corrupt_on_purpose_skipped": sorted(os.path.basename(e["file"]) for e in evs if os.path.basename(e["file"]) in CORRUPT_ON_PURPOSE)}
+
+
+# reference files that are malformed by design (regression inputs of the C library's own tests) or are one half of a pair
+CORRUPT_ON_PURPOSE = {
+    "3790_infinite_loop.h5": "fuzzed: header block size beyond the file",
+    "bad_offset.h5": "symbol table entry with a name offset outside the local heap",
+    "h5repack_CVE-2018-14460.h5": "CVE reproducer: dataspace message cut short",
+    "h5repack_CVE-2018-17432.h5": "CVE reproducer: storage size disagrees with the dataspace",
+    "memleak_H5O_dtype_decode_helper_H5Odtype.h5": "fuzzed attribute message",
+    "tCVE-2021-37501_attr_decode.h5": "CVE reproducer: maximum dimension below the current one",
+    "th5s.h5": "dataspace with a rank above the format's limit (the C library's refusal test)",
+    "tmisc38a.h5": "datatype size field altered (65525-byte float)",
+    "tsplit_file-m.h5": "metadata half of a split-file pair: raw data addresses point into the other file",
+}
 
 
 def run(ctx):
     thorough = ctx.tier == "thorough"
     ctx.build()
+    qual = corpus_selfcheck(ctx)
     models = [("C01Model.tla", "C01_thorough.cfg" if thorough else "C01_quick.cfg"),
               ("C03Model.tla", "C03_thorough.cfg" if thorough else "C03_quick.cfg"), ("C03Model.tla", "C03_sb.cfg"), ("C03Model.tla", "C03_links.cfg"),
               ("C04Model.tla", "C04_PXY.cfg"), ("C04Model.tla", "C04_PXYG.cfg"),
@@ -49,6 +86,13 @@ def run(ctx):
             if n > 8:
                 ops += [{"op": "delattr", "p": "/d", "n": "a%02d" % i} for i in range(0, n, 3)]
             cases.append({"cfg": {"sb": sb, "rb": "", "style": 0, "tag": "C05-dense"}, "ops": ops})
+    # datatypes whose message has inner structure: enumerations (member names at the padding boundaries), arrays, references
+    for sb in (0, 2, 3):
+        for dt in ("enum", "enumn", "enumw", "arr3", "ref", "opq7", "str1", "vls"):
+            for chunk in ([], [2]):
+                ops = [{"op": "mkds", "p": "/d", "dt": dt, "dims": [4], "chunk": chunk}, {"op": "write", "p": "/d", "data": "ext" if dt == "vls" else "seq"},
+                       {"op": "mkds", "p": "/e", "dt": "i32", "dims": [2]}, {"op": "write", "p": "/e", "data": "seq"}]
+                cases.append({"cfg": {"sb": sb, "rb": "", "style": 0, "tag": "C05-types"}, "ops": ops})
     cases += many_chunks() + random_big(ctx, 3000 if thorough else 400)
     path = ctx.write_cases(cases)
     trace, dout = ctx.drive("ops", path, env={"H5V_VIEW": "indep"})
@@ -80,7 +124,7 @@ def run(ctx):
                 "end-of-file address) and pairwise disjointness, every format rule the decoder evaluated (signatures, versions, size fields, "
                 "checksums, ordering, capacity of fixed-size nodes), and - with the H5LogicalTrace judge - that the tree, types, shapes, values and "
                 "attributes the decoder recovers are the model state of the history; non-trivial = histories of at least two calls",
-        "generators": per_model, "states": states, "transitions": trans,
+        "decoder_qualification": qual, "generators": per_model, "states": states, "transitions": trans,
         "traces_validated_against_impl": st["files"],
         "samples": [cases[0], cases[len(cases) // 2]],
         "layout_stats": st, "content_stats": v2["stats"], "rejected_layout": len(v1["bad"]), "rejected_content": len(v2["bad"]),
